@@ -43,7 +43,11 @@ SameAsBaseline(c) == LET o == Obs(c) b == c.baseline IN
    /\ ((\A kind \in {"client", "hook", "fatal"} : Count(o.errs, kind) = 0) => o.k = b.k)
    \* a cancel replaces a not yet sent new request for the same id in the outgoing message: only the cancel is compared
    /\ (<<"B", "cancel">> \in ToB(o)) = (<<"B", "cancel">> \in ToB(b))
-   /\ \A kind \in TerminalKinds \cup {"missing"} : Count(o.errs, kind) = Count(b.errs, kind)
+   \* (a block hook that returns an error while the request is being ended for another reason races with that ending: whether
+   \*  its error is still delivered next to the other one is decided inside the request, not by the third peer)
+   /\ LET OtherTerminal(x) == \E kk \in {"client", "failed", "hook"} : Count(x.errs, kk) > 0 IN
+      \A kind \in TerminalKinds \cup {"missing"} :
+         (kind = "fatal" /\ (OtherTerminal(o) \/ OtherTerminal(b))) \/ Count(o.errs, kind) = Count(b.errs, kind)
 C09Problems(c) == (IF "C" \in ToSet(Obs(c).hooks) THEN {"third-peer-response-reached-response-hook"} ELSE {})
    \cup (IF "C" \in ToSet(Obs(c).blockHookPeers) THEN {"third-peer-response-reached-block-hook"} ELSE {})
    \cup (IF \E w \in ToSet(Obs(c).wire) : w[1] = "C" THEN {"message-sent-to-third-peer"} ELSE {})
